@@ -369,7 +369,12 @@ def unify_universe(tier):
     X, Y, Z = V('X'), V('Y'), V('Z')
     base = [X, Y, A('a'), A('b'), C(1)] + ([Z, NIL] if tier != 'quick' else [])
     d1 = list(base) + [F('f', t) for t in base] + [F('f', t, u) for t in base for u in base] + [F('.', t, u) for t in base[:4] for u in base[:4]]
+    # a constant that is not equal to itself (a missing sensor reading): bound like any other value, unbound like any other
+    d1 += [NAN, F('f', NAN), F('f', X, NAN), F('f', NAN, X), F('g', X, Y, NAN)]
     return d1
+
+
+NAN = C(float('nan'))
 
 
 def run_unify_pair(acc, index, t1, t2):
